@@ -205,6 +205,21 @@ def check_spec(case):
         return R([('abort|%s|%s|%s' % (path, '+'.join(sorted(set(kinds))), type(ex).__name__), '%s at %s: %s' % (type(ex).__name__, frame, str(ex)[:200]))],
                  nt=True, labels=['path:' + path] + ['fault:' + k for k in kinds])
     flat, conflicts = G.flatten(sol)
+    fails_rt = []
+    # the degraded model survives the JSON round trip: every cell keeps its value (error values included)
+    try:
+        import json
+        m2 = sut.ExcelModel().from_dict(json.loads(json.dumps(m.to_dict())))
+        flat2, _ = G.flatten(m2.calculate())
+        for k_ in sorted(flat, key=repr):
+            a_, b_ = flat[k_], flat2.get(k_, sut.BLANK)
+            if not X.same(a_, b_, 1e-12) and not (isinstance(a_, sut.Blank) and isinstance(b_, sut.Blank)):
+                fails_rt.append(('roundtrip|%s|%s->%s' % (path, X.cls(a_), X.cls(b_)), '%s: %r in the loaded model, %r after to_dict -> from_dict' % (k_, a_, b_)))
+                break
+    except sut.Watchdog:
+        raise
+    except Exception as ex:
+        fails_rt.append(('roundtrip|%s|raised:%s' % (path, type(ex).__name__), repr(ex)[:200]))
     over = []
     for f, key in zip(faults, fkeys):
         got = flat.get((G.sheet_id(sp, key[0], key[1]), key[2], key[3]), 'MISSING')
@@ -229,7 +244,7 @@ def check_spec(case):
     sub_local = G.compare(sp_for_compare(sp), flat, {k: v for k, v in expected.items() if k not in down}, sub='nonlocal-' + path)
     sub_down = G.compare(sp_for_compare(sp), flat, {k: v for k, v in expected.items() if k in down and k not in fkeys}, sub='dependent-' + path)
     fk = '+'.join(sorted(set(kinds)))
-    fails += [('%s|%s' % (s, fk), d) for s, d in sub_local + sub_down]
+    fails += [('%s|%s' % (s, fk), d) for s, d in sub_local + sub_down + fails_rt]
     own_down = [k for k in down if k not in fkeys and k in W.populated(spec)]
     unaffected = [c for c in spec['cells'] if 'f' in c and tuple(c['at']) not in down]
     seen, out = set(), []
